@@ -32,7 +32,7 @@ PRECOND = {
 
 def arity_table(core):
     f = core.hir_fn(CORE + "functions::BuiltInFunction::arity")
-    m = H.matches_on(f["body"], "functions::BuiltInFunction")[0]
+    m = H.main_match(f["body"], "functions::BuiltInFunction")
     out = {}
     for a in m["arms"]:
         t = S.norm(a["body"], S.Env())
